@@ -75,6 +75,13 @@ def poll_rule(tier="quick"):
             rep = replay_poll(**args)
             if rep:
                 return res.out("violated", rep, {"replay": {"kind": "kn", "func": "vf.kernels.c19:replay_poll", "args": args}})
+    # the solver's witness may sit on a rounding edge of the (changed) test: try the neighbourhood it points at
+    for tp in (1, 2, 10):
+        for pt in (2, 5, 8):
+            args = dict(cur=2 + 3 * pt, last=2, tps=tp, poll=pt / tp)
+            rep = replay_poll(**args)
+            if rep:
+                return res.out("violated", rep, {"replay": {"kind": "kn", "func": "vf.kernels.c19:replay_poll", "args": args}})
     return res.out("inconclusive", f"RLX {r1}/{r2}; candidates do not reproduce")
 
 
